@@ -39,6 +39,11 @@ var c07Reqs = []c07Req{
 	{"invalid", `{ nope node { zzz } }`, nil},
 	{"scalars", `{ x1 x2 leafy { s i } }`, nil},
 	{"typed-fragment-merge", `{ a { ...P } c { ...P } nodes(n:3) { ...P } } fragment P on Node { peer(as:"B") { id } ... on A { peer(as:"B") { ... on B { bOnly } } } ... on C { peer(as:"B") { name } } }`, nil},
+	// one document whose merged selection of an abstract field depends on the
+	// runtime type of the parent, which the variables choose
+	{"abs-merge-A", `query($t:String){ node(as:$t) { peer(as:"B") { id } ... on A { peer(as:"B") { ... on B { bOnly } } } ... on C { peer(as:"B") { name } } } }`, map[string]interface{}{"t": "A"}},
+	{"abs-merge-B", `query($t:String){ node(as:$t) { peer(as:"B") { id } ... on A { peer(as:"B") { ... on B { bOnly } } } ... on C { peer(as:"B") { name } } } }`, map[string]interface{}{"t": "B"}},
+	{"abs-merge-C", `query($t:String){ node(as:$t) { peer(as:"B") { id } ... on A { peer(as:"B") { ... on B { bOnly } } } ... on C { peer(as:"B") { name } } } }`, map[string]interface{}{"t": "C"}},
 	{"dir-var-true", `query($s:Boolean!){ x1 @skip(if:$s) x2 a { name @include(if:$s) id } }`, map[string]interface{}{"s": true}},
 	{"dir-var-false", `query($s:Boolean!){ x1 @skip(if:$s) x2 a { name @include(if:$s) id } }`, map[string]interface{}{"s": false}},
 	{"enum-list-var", `query($ks:[Kind]){ echo2(ks:$ks) }`, map[string]interface{}{"ks": []interface{}{"BETA", "GAMMA", "ALPHA"}}},
@@ -56,6 +61,17 @@ var c07Reqs = []c07Req{
 	{"lit-2", `{ echo(i:2, s:"two") a { items(n:2) { n } } }`, nil},
 	{"lit-3", `{ echo(i:3, s:"six") a { items(n:3) { n } } }`, nil},
 }
+
+// c07QueryIndex numbers the distinct query texts of the pool.
+var c07QueryIndex = func() map[string]int {
+	m := map[string]int{}
+	for _, r := range c07Reqs {
+		if _, ok := m[r.Query]; !ok {
+			m[r.Query] = len(m)
+		}
+	}
+	return m
+}()
 
 // index of the first literal variant
 var c07LitBase = func() int {
@@ -309,7 +325,7 @@ func (c07) Run(t TestingT, scn json.RawMessage, tape *Tape) *Outcome {
 		worlds := []*World{NewWorld("A"), NewWorld("B")} // cold: nothing lazily initialised by a request yet
 		cache = graphql.NewPlanCache(graphql.PlanCacheOptions{MaxEntries: sc.MaxEntries, Normalize: sc.Normalize})
 		// prepared plans shared by all clients of a schema (planned, not yet executed)
-		plans := map[[2]int]*graphql.Plan{}
+		plans := map[[2]int]*graphql.Plan{} // keyed by schema and query text (requests that differ in variables only share the plan)
 		panicWorlds := map[int]bool{}
 		defer func() {
 			for wi := range panicWorlds {
@@ -322,7 +338,7 @@ func (c07) Run(t TestingT, scn json.RawMessage, tape *Tape) *Outcome {
 				if op.Kind != "plan" {
 					continue
 				}
-				if _, ok := plans[[2]int{cl.World, op.Req}]; ok {
+				if _, ok := plans[[2]int{cl.World, c07QueryIndex[c07Reqs[op.Req].Query]}]; ok {
 					continue
 				}
 				rq := c07Reqs[op.Req]
@@ -336,7 +352,7 @@ func (c07) Run(t TestingT, scn json.RawMessage, tape *Tape) *Outcome {
 				} else if doc, err := parseDoc(rq.Query); err == nil && graphql.ValidateDocument(&w.Schema, doc, nil).IsValid {
 					pl, _ = graphql.PlanQuery(&w.Schema, doc, "")
 				}
-				plans[[2]int{cl.World, op.Req}] = pl
+				plans[[2]int{cl.World, c07QueryIndex[c07Reqs[op.Req].Query]}] = pl
 			}
 		}
 		for wi := range panicWorlds {
@@ -379,7 +395,7 @@ func (c07) Run(t TestingT, scn json.RawMessage, tape *Tape) *Outcome {
 							tc.Out[key] = MarshalResult(held[key])
 						}
 					case "plan":
-						if pl := plans[[2]int{cl.World, op.Req}]; pl != nil {
+						if pl := plans[[2]int{cl.World, c07QueryIndex[c07Reqs[op.Req].Query]}]; pl != nil {
 							tc.Out[key] = MarshalResult(graphql.ExecutePlan(pl, graphql.ExecuteParams{Schema: w.Schema, Args: rq.Vars, Context: ctx}))
 						} else {
 							tc.Out[key] = MarshalResult(graphql.Do(graphql.Params{Schema: w.Schema, RequestString: rq.Query, VariableValues: rq.Vars, Context: ctx}))
